@@ -72,7 +72,7 @@ fn main() {
 
     let sizes: Vec<usize> = match &replay {
         Some(r) => vec![r["size"].as_u64().unwrap() as usize],
-        None => (0..=max_size).collect(),
+        None => (args.usize("min_size", 0)..=max_size).collect(),
     };
     'sizes: for size in sizes {
         if t0.elapsed().as_secs() >= budget_s {
